@@ -8,6 +8,7 @@ import (
 	"hash/crc32"
 	"os"
 	"strings"
+	"sync"
 
 	"github.com/klauspost/reedsolomon"
 	"github.com/sharedcode/sop"
@@ -27,6 +28,7 @@ func vfMD5(data []byte) [16]byte {
 // vfECFiles is the drives of an erasure-coded blob store: files in memory; writes to a
 // failed drive return an error.
 type vfECFiles struct {
+	mu        sync.Mutex // natively the blob store reads and writes shards from several goroutines
 	files     map[string][]byte
 	failDrive []bool
 }
@@ -46,21 +48,32 @@ func (f *vfECFiles) WriteFile(ctx context.Context, name string, data []byte, per
 	if d := vfDriveOf(name); d >= 0 && d < len(f.failDrive) && f.failDrive[d] {
 		return vfErrDrive
 	}
+	f.mu.Lock()
 	f.files[name] = append([]byte(nil), data...)
+	f.mu.Unlock()
 	return nil
 }
 func (f *vfECFiles) ReadFile(ctx context.Context, name string) ([]byte, error) {
+	f.mu.Lock()
+	defer f.mu.Unlock()
 	b, ok := f.files[name]
 	if !ok {
 		return nil, vfErrNoFile
 	}
 	return append([]byte(nil), b...), nil
 }
-func (f *vfECFiles) Remove(ctx context.Context, name string) error { delete(f.files, name); return nil }
+func (f *vfECFiles) Remove(ctx context.Context, name string) error {
+	f.mu.Lock()
+	delete(f.files, name)
+	f.mu.Unlock()
+	return nil
+}
 func (f *vfECFiles) Stat(ctx context.Context, path string) (os.FileInfo, error) {
 	return nil, vfErrNoFile
 }
 func (f *vfECFiles) Exists(ctx context.Context, path string) bool {
+	f.mu.Lock()
+	defer f.mu.Unlock()
 	_, ok := f.files[path]
 	return ok
 }
@@ -96,6 +109,8 @@ func vfNewEC(repair bool) *vfEC {
 		if repair {
 			shapes = shapes[:1] // quick tier of the repair check: (2,1) only
 		}
+	} else if repair {
+		shapes = shapes[:2] // thorough tier of the repair check: (1,1) and (2,1)
 	}
 	sh := shapes[zzvf.Choose("data-parity", len(shapes))]
 	e := &vfEC{d: sh[0], p: sh[1]}
